@@ -5,6 +5,8 @@ CONSTANTS
   Bits = {32, 64}
   MaxSteps = 8
   Variant = "wrapperMemo"
+  WithSv = FALSE
+  SvMode = "asWritten"
 INVARIANT TypeOK
 INVARIANT Coherent
 INVARIANT NoSharing
